@@ -26,6 +26,9 @@ def run(prog, tier):
     p_c05.derived_rule(prog, res, 'header-sync/derived')
     # header counts agree with the POINT/ANALOG parameters: the updater's decision table (finite models)
     p_c05.sync_table_rule(prog, res)
+    # the data section holds header.points x frames records only when every frame received the same columns
+    import p_c06
+    p_c06.column_rules(prog, res, rule='data-uniform')
     # a CHAR cell is dimension[0] bytes wide: the setter must declare the longest stored string
     import p_c09
     p_c09.longest_string_rule(prog, res, 'cell-width/declared')
